@@ -57,14 +57,18 @@ CORPUS = {
 # entries whose student code really rebinds an attribute of a library module of the grading process: they are run only
 # against their observer, and the harness restores the module afterwards so that no other pair is affected
 POLLUTERS = {
+    'question_pool': ("from pedal import *\nfrom pedal.questions.setup import set_seed\nfrom pedal.questions.pool import Pool\nset_seed([0, 1])\n"
+                      "p = Pool('p', choices=['first', 'second'])\ngently('chosen ' + str(p.choose()), label='pool_choice')\n", "x = 1\n"),
     'module_attr_runtime': ("from pedal import *\nverify()\nrun()\nset_success()\n", "import math\nmath.pi = '3.14'\nprint(math.pi)\n"),
 }
-OBSERVERS = {'module_attr_runtime': 'module_attr_use'}
+OBSERVERS = {'module_attr_runtime': 'module_attr_use', 'question_pool': 'question_pool'}
 
 
 def _restore_interpreter():
     import math
     math.pi = 3.141592653589793
+    from pedal.questions.pool import Pool
+    Pool._POOL_TRACKER = 0
 
 
 def grade(name):
@@ -120,7 +124,7 @@ def bounded(arg):
         firsts = names
     else:
         firsts = names
-    baseline = {n: fresh(n) for n in names}
+    baseline = {n: fresh(n) for n in names + [o for o in OBSERVERS.values() if o not in names]}
     failures, samples = [], []
     evaluations = 0
     distinct = set()
